@@ -2,21 +2,21 @@ HOOK_COMMITS = []
 NOT_APPLICABLE = {}
 META = {}
 META["C11"] = {
-    "technique": "exhaustive enumeration + rapid PBT against a segment-stack reference model; composition (associativity) relation",
+    "technique": "exhaustive enumeration + rapid PBT against a segment-stack reference model; composition (associativity) relation; the same model applied to the finder call log of real bundle builds",
     "text": ("Every (base, relative) pair and (base, rel1, rel2) triple in the bounds the property names is enumerated completely and "
              "compared with an independent segment-stack model (kind, package, version, sub-path, canonical string, error-and-no-address "
              "on climbing out); rapid extends to longer paths and odd names. Exhaustive inside the stated bounds, sampled beyond."),
     "note": "Trusts the harness model (40 lines) and go-slug's parsers for building the base values; names needing URL escaping are compared through accessors only (printing is C06).",
 }
 META["C01"] = {
-    "technique": "rapid PBT over hostile tar.gz entry sequences and fault plans; arena snapshot before/after as oracle; native fuzzing (thorough)",
+    "technique": "rapid PBT over hostile tar.gz entry sequences and fault plans, and over sequences of archives unpacked into one destination; arena snapshot before/after every call as oracle; native fuzzing (thorough)",
     "text": ("Generated adversarial archives (entry orders, name/target spellings, repeated names, links before files, truncated and failing "
              "readers) are unpacked into a destination nested in an arena whose complete observable state outside dst is snapshotted before "
              "and after; any difference is a violation whatever Unpack returned. Sampled, not exhaustive."),
     "note": "Trusts the harness snapshot (Lstat/Readlink/sha256) and tar builders; dst's own inode and atime are excluded; runs as root so permission bits never mask an escape.",
 }
 META["C04"] = {
-    "technique": "rapid PBT over cooperating symlink entries; physical link resolution of the unpacked tree as oracle; IllegalSlugError classification",
+    "technique": "rapid PBT over cooperating symlink entries and over sequences of archives into one destination; physical link resolution of the unpacked tree after every call as oracle; IllegalSlugError classification",
     "text": ("Every symlink left under dst is resolved the way the kernel would and must stay inside dst (unless allow-listed); archives whose "
              "only offence is one directly escaping link must be refused with an illegal-slug error. One known finding (link made escaping by "
              "way of another link) is excluded at the oracle and replayed as KNOWN-FINDING."),
@@ -29,14 +29,14 @@ META["C02"] = {
     "note": "Trusts fsx.Snapshot; ignore-on directory entries are lenient here and judged by C03.",
 }
 META["C15"] = {
-    "technique": "exhaustive enumeration of short entry sequences + rapid PBT against a reference sequential tar interpreter; root and unprivileged passes",
+    "technique": "exhaustive enumeration of short entry sequences + rapid PBT against a reference sequential tar interpreter; root, unprivileged and strict-umask passes",
     "text": ("All entry sequences up to length 3 (4 in the thorough tier) over a 18-variant alphabet are unpacked as root and as uid 65534 and the "
              "destination is compared with the tree computed by an independent reference interpreter; rapid extends to 12 entries. Exhaustive "
              "within that alphabet, sampled beyond."),
     "note": "The reference interpreter (lib/refunpack) is the trusted base; archives are written with archive/tar.",
 }
 META["C12"] = {
-    "technique": "fault enumeration: every writer/reader byte offset (and every builder callback position) per rapid-generated subject",
+    "technique": "fault enumeration: every writer/reader byte offset of Pack, Unpack and WriteArchive (and every builder callback position) per rapid-generated subject",
     "text": ("For each generated tree/archive/world the fault position is enumerated completely - every output byte offset for Pack, every "
              "input offset (truncation and read error) for Unpack, every fetch/registry/finder call and pairs of them for bundle builds with an "
              "OpenDir probe at every callback boundary - and the reported outcome is checked against 'error, or complete result'."),
@@ -56,7 +56,7 @@ META["C05"] = {
     "note": "Outside content is recognised by OUT: tokens; link classification is lexical (one hop) as the property states.",
 }
 META["C20"] = {
-    "technique": "rapid PBT over trees x packer options; returned Meta compared with headers and bodies read back from the slug",
+    "technique": "rapid PBT over trees x packer options (and over files that change size while being packed); returned Meta compared with headers and bodies read back from the slug",
     "text": "For every generated tree/option set the returned file list and size are compared with the decoded archive (names in order, header sizes, body bytes).",
     "note": "Trusts archive/tar for decoding.",
 }
